@@ -43,8 +43,9 @@ TConnect == IsEvent("Connect") /\ Run /\ Len(Ev.lep) = 2
             /\ Connect(Ev.c, Ev.conn, Ep(Ev.lep), Ep(Ev.target), Ev.mss)
 
 TWire == /\ IsEvent("Wire") /\ Run0 /\ WPush(WKey, Ev.hop) /\ Ev.conn \in DOMAIN cn
-         /\ CASE Ev.kind = "syn" -> cn[Ev.conn].phase = "syn" /\ Ev.nth = 1 /\ Ep(Ev.from) = cn[Ev.conn].cep
-                                     /\ UNCHANGED tvars0
+         /\ CASE Ev.kind = "syn" -> /\ Ep(Ev.from) = cn[Ev.conn].cep
+                                     /\ IF Ev.nth = 1 THEN cn[Ev.conn].phase = "syn" /\ UNCHANGED tvars0
+                                        ELSE SynResent(Ev.conn)
               [] Ev.kind = "syn_ack" -> SynAck(Ev.conn)
               [] Ev.kind = "payload" -> IF Ev.nth = 1 THEN SendSeg(K, Ev.seq, Ev.len) ELSE Resend(K, Ev.seq, Ev.len)
               [] Ev.kind = "error" -> SendEof(K, Ev.seq)
@@ -56,6 +57,9 @@ TArrive == /\ IsEvent("ArriveSock") /\ Run0 /\ Ev.conn \in DOMAIN cn /\ Ev.same 
                 [] Ev.kind = "error" -> ArriveSeg(K, Ev.seq, 0)
                 [] Ev.kind = "ack" -> AckArrive(AckK, Ev.seq)
 DKey == <<Ev.conn, Ev.dir, "payload", Ev.seq>>
+SKey == <<Ev.conn, Ev.dir, "syn", Ev.seq>>
+TDropSyn == IsEvent("DropSyn") /\ Run0 /\ Ev.conn \in DOMAIN cn /\ SynDropped(Ev.conn)
+            /\ (IF SKey \in DOMAIN wt THEN WPop(SKey) ELSE UNCHANGED wt)
 TDrop == IsEvent("Drop") /\ Run0 /\ DropSeg(K, Ev.seq) /\ (IF DKey \in DOMAIN wt THEN WPop(DKey) ELSE UNCHANGED wt)
 
 TWrite == IsEvent("Write") /\ Run /\ sk[Ev.s].conn = Ev.conn /\ StartWrite(Ev.s, Ev.h, Ev.size)
@@ -100,7 +104,7 @@ TPending == /\ IsEvent("Pending") /\ phase = "run" /\ UNCHANGED <<phase, rt, wt>
 \* run() returned
 ConnectsComplete == \A id \in DOMAIN cn :
     /\ cn[id].phase \notin {"synack", "refusing"}
-    /\ (cn[id].phase \in {"syn", "queued"} /\ cn[id].acc # "" /\ lst[cn[id].acc].listening)
+    /\ (cn[id].phase \in {"syn", "synlost", "queued"} /\ cn[id].acc # "" /\ lst[cn[id].acc].listening)
           => lst[cn[id].acc].pend = <<>>
     /\ cn[id].hAcc = 0
 TEnd == /\ IsEvent("End") /\ phase = "run" /\ phase' = "idle" /\ keeps' = {}
@@ -118,7 +122,7 @@ Diag == [l |-> l, owed |-> ~NothingOwed, connects |-> ~ConnectsComplete,
                          wr |-> (sk[Sender(k)].wr # None /\ InFlight(k) = {}),
                          lost |-> Cardinality(Lost(k)), undeliv |-> st[k].wire - st[k].deliv]
                       ELSE [conn |-> k[1], dir |-> k[2], rd |-> FALSE, wr |-> FALSE, lost |-> 0, undeliv |-> 0]]]
-TNext == TMove \/ TBindAcc \/ TCancel \/ TCancelAcc \/ TThrow \/ TEndThrown \/ TEndLoose \/ TCfg \/ TAdv \/ TListen \/ TCloseAcc \/ TAccept \/ TConnect \/ TWire \/ TArrive \/ TDrop \/ TWrite
+TNext == TDropSyn \/ TMove \/ TBindAcc \/ TCancel \/ TCancelAcc \/ TThrow \/ TEndThrown \/ TEndLoose \/ TCfg \/ TAdv \/ TListen \/ TCloseAcc \/ TAccept \/ TConnect \/ TWire \/ TArrive \/ TDrop \/ TWrite
          \/ TWriteDone \/ TRead \/ TReadDone \/ TReady \/ TReadSome \/ TClose \/ TConnectDone \/ TAcceptDone
          \/ TPending \/ TEnd
 TSpec == TInit /\ [][TNext]_tvars
